@@ -212,6 +212,23 @@ static void check_tgold()
             V(fmt("tgold:f%d:eps%g", id, eps), fmt("decay0_tgold(function %d, [%g,%g], eps=%g, %s): returns x=%.12g, true extremum %.12g (off by %.3g)", id, iv.first, iv.second, eps,
                                                    minmax == 1 ? "min" : "max", xe, u.x0, std::fabs(xe - u.x0)));
           if (fe != f_uni(xe, &u)) V("tgold:fextr", "fextr is not f(xextr)");
+          // the alternate entry point (one bracketing step with the caller's interior point b, then the search): b exactly
+          // centred (the tie of its two interval-length tests), near either end and in between
+          for (double bf : {0.5, 0.25, 0.75, 0.0625, 0.9375, 0.381966011250105, 0.618033988749895}) {
+            double b = iv.first + bf * (iv.second - iv.first);
+            double xo = 0, fo = 0;
+            g_eval++;
+            try {
+              bxdecay0::decay0_tgold_o(iv.first, b, iv.second, f_uni, eps, minmax, xo, fo, &u);
+            } catch (std::logic_error &) {
+              continue; // f(x) == f(b) exactly: the documented invalid case
+            }
+            g_nontrivial++;
+            if (!(std::fabs(xo - u.x0) <= eps))
+              V(fmt("tgold_o:f%d:eps%g", id, eps), fmt("decay0_tgold_o(function %d, [%g,%g], b=%.12g, eps=%g, %s): returns x=%.12g, true extremum %.12g (off by %.3g)", id, iv.first, iv.second, b, eps,
+                                                       minmax == 1 ? "min" : "max", xo, u.x0, std::fabs(xo - u.x0)));
+            if (fo != f_uni(xo, &u)) V("tgold_o:fextr", "decay0_tgold_o: fextr is not f(xextr)");
+          }
         }
 }
 
